@@ -5,7 +5,10 @@ package main
 // information; no source text is compared.
 
 import (
+	"fmt"
 	"go/ast"
+	"go/constant"
+	"go/token"
 	"go/types"
 	"sort"
 	"strings"
@@ -295,4 +298,618 @@ func c14ParamIdx(i int) Pat {
 // c14HasCall reports whether fn (or a closure) contains a plain call to f.
 func c14HasCall(fn *ssa.Function, f *types.Func) bool {
 	return fn != nil && f != nil && len(instrsWhere(fn, isPlainCallTo(f))) > 0
+}
+
+// ---------------------------------------------------------------------------
+// Shape-independent table reader (round 2).
+//
+// A table function ("alg → value / supported?") may be written as a switch, an
+// if/else chain, an `a == X || a == Y` expression, early returns or a named
+// result joined at one return, or a lookup in a package-level map literal.
+// go/ssa lowers all but the last to the same thing — branches on
+// `tag == constant` — so the table is read from the control-flow graph: for
+// every equality edge, the function's continuation is followed (phis resolved
+// along the path taken) to the value it returns / the calls it makes.
+
+type c14Arm struct {
+	Key      string // exact constant the tag is compared with
+	From, To *ssa.BasicBlock
+}
+
+// c14TagCompare decides whether cond is "tag == const" (any spelling) and on
+// which successor the equality holds.
+func c14TagCompare(cond *Expr, tag Pat) (key string, succ int, ok bool) {
+	var k *Expr
+	m, pol := CmpMatch(cond, tag, token.EQL, func(e *Expr) bool {
+		if IsAnyConst(e) && !IsNilConst(e) {
+			k = strip(e)
+			return true
+		}
+		return false
+	})
+	if !m || k == nil || k.Val == nil {
+		return "", 0, false
+	}
+	succ = 1
+	if pol {
+		succ = 0
+	}
+	return k.Val.ExactString(), succ, true
+}
+
+func c14TagArms(fn *ssa.Function, tag Pat) []c14Arm {
+	var out []c14Arm
+	if fn == nil {
+		return nil
+	}
+	for _, b := range fn.Blocks {
+		if len(b.Instrs) == 0 {
+			continue
+		}
+		iff, ok := b.Instrs[len(b.Instrs)-1].(*ssa.If)
+		if !ok {
+			continue
+		}
+		if key, succ, ok := c14TagCompare(condOf(iff), tag); ok {
+			out = append(out, c14Arm{Key: key, From: b, To: b.Succs[succ]})
+		}
+	}
+	return out
+}
+
+// c14ValueID names a returned value canonically, like c14ExprID does for syntax.
+func c14ValueID(v ssa.Value) string {
+	for {
+		switch x := v.(type) {
+		case *ssa.MakeInterface:
+			v = x.X
+			continue
+		case *ssa.ChangeType:
+			v = x.X
+			continue
+		case *ssa.ChangeInterface:
+			v = x.X
+			continue
+		case *ssa.Convert:
+			if c, ok := x.X.(*ssa.Const); ok {
+				v = c
+				continue
+			}
+		}
+		break
+	}
+	switch x := v.(type) {
+	case *ssa.Const:
+		if x.Value == nil {
+			return "const:nil"
+		}
+		return "const:" + x.Value.ExactString()
+	case *ssa.Call:
+		if fo, _, _ := calleeObj(&x.Call); fo != nil {
+			return "call:" + fo.FullName()
+		}
+	}
+	return "?" + trunc(Desc(v).String(), 80)
+}
+
+// c14ResolveOnPath resolves v through the phis of blocks the path went
+// through (predOf: block → the predecessor it was entered from).
+func c14ResolveOnPath(v ssa.Value, predOf map[*ssa.BasicBlock]*ssa.BasicBlock) ssa.Value {
+	for i := 0; i < 32; i++ {
+		phi, ok := v.(*ssa.Phi)
+		if !ok {
+			return v
+		}
+		p, ok := predOf[phi.Block()]
+		if !ok {
+			return v
+		}
+		idx := -1
+		for j, q := range phi.Block().Preds {
+			if q == p {
+				idx = j
+			}
+		}
+		if idx < 0 {
+			return v
+		}
+		v = phi.Edges[idx]
+	}
+	return v
+}
+
+// c14WalkArm explores the continuation of an arm.  Branches whose condition
+// resolves to a boolean constant along the path (the `||` / `&&` joins) are
+// followed on that edge only; other non-tag branches are followed both ways;
+// a further tag comparison ends the path (it belongs to the next arm).
+func c14WalkArm(a c14Arm, tag Pat, visit func(ssa.Instruction), onReturn func(r *ssa.Return, predOf map[*ssa.BasicBlock]*ssa.BasicBlock)) {
+	type state struct {
+		b      *ssa.BasicBlock
+		predOf map[*ssa.BasicBlock]*ssa.BasicBlock
+		depth  int
+	}
+	clone := func(m map[*ssa.BasicBlock]*ssa.BasicBlock) map[*ssa.BasicBlock]*ssa.BasicBlock {
+		n := make(map[*ssa.BasicBlock]*ssa.BasicBlock, len(m)+1)
+		for k, v := range m {
+			n[k] = v
+		}
+		return n
+	}
+	start := state{a.To, map[*ssa.BasicBlock]*ssa.BasicBlock{a.To: a.From}, 0}
+	stack := []state{start}
+	budget := 4000
+	for len(stack) > 0 && budget > 0 {
+		st := stack[len(stack)-1]
+		stack = stack[:len(stack)-1]
+		b := st.b
+		for _, in := range b.Instrs {
+			budget--
+			if visit != nil {
+				visit(in)
+			}
+		}
+		if len(b.Instrs) == 0 || st.depth > 40 {
+			continue
+		}
+		next := func(s *ssa.BasicBlock) {
+			if _, seen := st.predOf[s]; seen {
+				return // loop: do not go round
+			}
+			m := clone(st.predOf)
+			m[s] = b
+			stack = append(stack, state{s, m, st.depth + 1})
+		}
+		switch t := b.Instrs[len(b.Instrs)-1].(type) {
+		case *ssa.Return:
+			if onReturn != nil {
+				onReturn(t, st.predOf)
+			}
+		case *ssa.Jump:
+			next(b.Succs[0])
+		case *ssa.If:
+			if _, _, isTag := c14TagCompare(condOf(t), tag); isTag {
+				continue
+			}
+			cv := c14ResolveOnPath(t.Cond, st.predOf)
+			neg := false
+			for {
+				u, ok := cv.(*ssa.UnOp)
+				if !ok || u.Op != token.NOT {
+					break
+				}
+				neg = !neg
+				cv = c14ResolveOnPath(u.X, st.predOf)
+			}
+			if k, ok := cv.(*ssa.Const); ok && k.Value != nil && k.Value.Kind() == constant.Bool {
+				val := constant.BoolVal(k.Value) != neg
+				if val {
+					next(b.Succs[0])
+				} else {
+					next(b.Succs[1])
+				}
+				continue
+			}
+			next(b.Succs[0])
+			next(b.Succs[1])
+		}
+	}
+}
+
+// c14ArmTable: key → canonical id of result #idx on the key's arm ("?…" when
+// the arm's returns disagree or cannot be resolved).
+func c14ArmTable(fn *ssa.Function, tag Pat, idx int) map[string]string {
+	out := map[string]string{}
+	for _, a := range c14TagArms(fn, tag) {
+		val := ""
+		c14WalkArm(a, tag, nil, func(r *ssa.Return, predOf map[*ssa.BasicBlock]*ssa.BasicBlock) {
+			id := "?short return"
+			if idx < len(r.Results) {
+				id = c14ValueID(c14ResolveOnPath(r.Results[idx], predOf))
+			}
+			switch {
+			case val == "":
+				val = id
+			case val != id:
+				val = "?conflict(" + val + " | " + id + ")"
+			}
+		})
+		if val == "" {
+			val = "?no return"
+		}
+		if prev, dup := out[a.Key]; dup && prev != val {
+			val = "?conflict(" + prev + " | " + val + ")"
+		}
+		out[a.Key] = val
+	}
+	// `… || tag == K` returned as a value: K's verdict is the comparison itself
+	if v := c14DefaultValue(fn, tag, idx); v != nil {
+		if key, succ, ok := c14TagCompare(Desc(v), tag); ok {
+			if _, dup := out[key]; !dup {
+				if succ == 0 {
+					out[key] = "const:true"
+				} else {
+					out[key] = "const:false"
+				}
+			}
+		}
+	}
+	return out
+}
+
+// c14ArmFamilies groups keys by the family of the functions called on their arm.
+func c14ArmFamilies(fn *ssa.Function, tag Pat, classify func(*types.Func) string) map[string]map[string]bool {
+	out := map[string]map[string]bool{}
+	for _, a := range c14TagArms(fn, tag) {
+		fam := ""
+		c14WalkArm(a, tag, func(in ssa.Instruction) {
+			cc := callCommon(in)
+			if cc == nil {
+				return
+			}
+			fo, _, _ := calleeObj(cc)
+			if f := classify(fo); f != "" {
+				if fam != "" && fam != f {
+					fam = "mixed"
+				} else if fam == "" {
+					fam = f
+				}
+			}
+		}, nil)
+		if fam == "" {
+			fam = "none"
+		}
+		if out[fam] == nil {
+			out[fam] = map[string]bool{}
+		}
+		out[fam][a.Key] = true
+	}
+	return out
+}
+
+// c14DefaultValue follows fn from its entry taking the "not equal" edge of
+// every tag comparison and returns the (phi-resolved) value of result #idx
+// there; nil when another branch makes it path dependent.
+func c14DefaultValue(fn *ssa.Function, tag Pat, idx int) ssa.Value {
+	if fn == nil || len(fn.Blocks) == 0 {
+		return nil
+	}
+	b := fn.Blocks[0]
+	predOf := map[*ssa.BasicBlock]*ssa.BasicBlock{}
+	for steps := 0; steps < 200; steps++ {
+		if len(b.Instrs) == 0 {
+			return nil
+		}
+		switch t := b.Instrs[len(b.Instrs)-1].(type) {
+		case *ssa.Return:
+			if idx >= len(t.Results) {
+				return nil
+			}
+			return c14ResolveOnPath(t.Results[idx], predOf)
+		case *ssa.Jump:
+			predOf[b.Succs[0]] = b
+			b = b.Succs[0]
+		case *ssa.If:
+			var s *ssa.BasicBlock
+			if _, succ, ok := c14TagCompare(condOf(t), tag); ok {
+				s = b.Succs[1-succ]
+			} else if k, ok := c14ResolveOnPath(t.Cond, predOf).(*ssa.Const); ok && k.Value != nil && k.Value.Kind() == constant.Bool {
+				s = b.Succs[1]
+				if constant.BoolVal(k.Value) {
+					s = b.Succs[0]
+				}
+			} else {
+				return nil
+			}
+			if _, seen := predOf[s]; seen {
+				return nil
+			}
+			predOf[s] = b
+			b = s
+		default:
+			return nil
+		}
+	}
+	return nil
+}
+
+// c14DefaultResult: the value id of result #idx for a key outside the table
+// ("" when not determinable).  A result that is itself `tag == K` — the last
+// operand of an || chain returned directly — is false for every other key.
+func c14DefaultResult(fn *ssa.Function, tag Pat, idx int) string {
+	v := c14DefaultValue(fn, tag, idx)
+	if v == nil {
+		return ""
+	}
+	if _, succ, ok := c14TagCompare(Desc(v), tag); ok {
+		if succ == 0 {
+			return "const:false"
+		}
+		return "const:true"
+	}
+	return c14ValueID(v)
+}
+
+// c14MapTable reads a table function written as a lookup in a package-level
+// map literal: key → value id for result #idx (the looked-up value, or
+// "const:true" when the result is the comma-ok flag).  The literal is the
+// variable's initialiser; later writes to the map are not tracked.
+func c14MapTable(p *Prog, fn *ssa.Function, tag Pat, idx int) (map[string]string, bool) {
+	if fn == nil {
+		return nil, false
+	}
+	var look *ssa.Lookup
+	n := 0
+	for _, b := range fn.Blocks {
+		for _, in := range b.Instrs {
+			if l, ok := in.(*ssa.Lookup); ok && tag(Desc(l.Index)) {
+				look = l
+				n++
+			}
+		}
+	}
+	if n != 1 {
+		return nil, false
+	}
+	g := strip(Desc(look.X))
+	if g == nil || g.K != EGlobal || g.Obj == nil || g.Obj.Pkg() == nil {
+		return nil, false
+	}
+	lit, pk := c14PkgVarValue(p, g.Obj.Pkg().Path(), g.Obj.Name())
+	if lit == nil {
+		return nil, false
+	}
+	vals, ok := c14MapLitValues(lit, pk.TypesInfo)
+	if !ok {
+		return nil, false
+	}
+	// which component of the lookup does result #idx carry?
+	kind := ""
+	for _, b := range fn.Blocks {
+		for _, in := range b.Instrs {
+			r, ok := in.(*ssa.Return)
+			if !ok || idx >= len(r.Results) {
+				continue
+			}
+			for _, l := range Origins(Desc(r.Results[idx]), nil) {
+				ls := strip(l)
+				switch {
+				case ls.V == ssa.Value(look) && !look.CommaOk:
+					kind = "value"
+				case ls.K == EExtract && ls.X != nil && ls.X.V == ssa.Value(look) && ls.Idx == 0:
+					kind = "value"
+				case ls.K == EExtract && ls.X != nil && ls.X.V == ssa.Value(look) && ls.Idx == 1:
+					kind = "ok"
+				}
+			}
+		}
+	}
+	out := map[string]string{}
+	for k, v := range vals {
+		switch kind {
+		case "value":
+			out[k] = v
+		case "ok":
+			out[k] = "const:true"
+		default:
+			return nil, false
+		}
+	}
+	return out, true
+}
+
+// ---------------------------------------------------------------------------
+// Accepting exits, independent of return style (round 2).
+//
+// "fn returns <accept> only when guard G holds" must be decided the same way
+// whether the function says `if !a { return false } … return true`,
+// `return a && b`, computes named boolean locals first, merges refusals into
+// one condition or applies De Morgan.  The paths of the function are therefore
+// enumerated (each block at most once per path, so loops are traversed at most
+// one iteration), resolving every phi by the edge the path actually took:
+//   - a branch whose condition resolves to a boolean constant on this path is
+//     followed on that edge only (this is what makes named locals and && / ||
+//     joins path-exact);
+//   - any other branch contributes the fact "condition holds / fails";
+//   - at a Return, result #idx resolved on the path is the accepting constant,
+//     or — for booleans — a last operand v returned directly (`… && v`), which
+//     contributes the fact "v holds".
+// A guard is satisfied on an accepting path if one of its facts is the guard's
+// edge, or the path executed one of the guard's instructions.
+
+type c14Fact struct {
+	Cond  *Expr
+	Truth bool
+}
+
+type c14Path struct {
+	Facts  []c14Fact
+	Instrs []ssa.Instruction // calls executed on the path
+	Ret    *ssa.Return
+	Trail  []ssa.Instruction
+}
+
+// c14ResolveBool resolves v on the path through phis and negations.
+func c14ResolveBool(v ssa.Value, predOf map[*ssa.BasicBlock]*ssa.BasicBlock) (val ssa.Value, neg bool) {
+	for i := 0; i < 32; i++ {
+		v = c14ResolveOnPath(v, predOf)
+		if u, ok := v.(*ssa.UnOp); ok && u.Op == token.NOT {
+			neg = !neg
+			v = u.X
+			continue
+		}
+		break
+	}
+	return v, neg
+}
+
+func c14AcceptPaths(fn *ssa.Function, idx int, accept Pat, also func(*ssa.Return) bool) (paths []c14Path, complete bool) {
+	if fn == nil || len(fn.Blocks) == 0 {
+		return nil, true
+	}
+	acceptsTrue := accept(&Expr{K: EConst, Val: constant.MakeBool(true)})
+	type state struct {
+		b      *ssa.BasicBlock
+		predOf map[*ssa.BasicBlock]*ssa.BasicBlock
+		facts  []c14Fact
+		calls  []ssa.Instruction
+		trail  []ssa.Instruction
+	}
+	budget := 60000
+	var rec func(st state)
+	rec = func(st state) {
+		if budget <= 0 {
+			return
+		}
+		b := st.b
+		for _, in := range b.Instrs {
+			budget--
+			if callCommon(in) != nil {
+				st.calls = append(st.calls[:len(st.calls):len(st.calls)], in)
+			}
+		}
+		if len(b.Instrs) == 0 {
+			return
+		}
+		next := func(s *ssa.BasicBlock, f *c14Fact, via ssa.Instruction) {
+			if _, seen := st.predOf[s]; seen || s == fn.Blocks[0] {
+				return
+			}
+			m := make(map[*ssa.BasicBlock]*ssa.BasicBlock, len(st.predOf)+1)
+			for k, v := range st.predOf {
+				m[k] = v
+			}
+			m[s] = b
+			ns := state{b: s, predOf: m, facts: st.facts, calls: st.calls, trail: st.trail}
+			if f != nil {
+				ns.facts = append(st.facts[:len(st.facts):len(st.facts)], *f)
+				ns.trail = append(st.trail[:len(st.trail):len(st.trail)], via)
+			}
+			rec(ns)
+		}
+		switch t := b.Instrs[len(b.Instrs)-1].(type) {
+		case *ssa.Return:
+			if idx >= len(t.Results) || (also != nil && !also(t)) {
+				return
+			}
+			rv := c14ResolveOnPath(t.Results[idx], st.predOf)
+			if k, ok := rv.(*ssa.Const); ok {
+				if accept(Desc(k)) {
+					paths = append(paths, c14Path{Facts: st.facts, Instrs: st.calls, Ret: t, Trail: st.trail})
+				}
+				return
+			}
+			if bt, ok := rv.Type().Underlying().(*types.Basic); ok && bt.Info()&types.IsBoolean != 0 && acceptsTrue {
+				v, neg := c14ResolveBool(rv, st.predOf)
+				if k, ok := v.(*ssa.Const); ok && k.Value != nil && k.Value.Kind() == constant.Bool {
+					if constant.BoolVal(k.Value) != neg {
+						paths = append(paths, c14Path{Facts: st.facts, Instrs: st.calls, Ret: t, Trail: st.trail})
+					}
+					return
+				}
+				f := append(st.facts[:len(st.facts):len(st.facts)], c14Fact{Cond: Desc(v), Truth: !neg})
+				paths = append(paths, c14Path{Facts: f, Instrs: st.calls, Ret: t, Trail: st.trail})
+			}
+		case *ssa.Jump:
+			next(b.Succs[0], nil, nil)
+		case *ssa.If:
+			v, neg := c14ResolveBool(t.Cond, st.predOf)
+			if k, ok := v.(*ssa.Const); ok && k.Value != nil && k.Value.Kind() == constant.Bool {
+				if constant.BoolVal(k.Value) != neg {
+					next(b.Succs[0], nil, nil)
+				} else {
+					next(b.Succs[1], nil, nil)
+				}
+				return
+			}
+			e := Desc(v)
+			next(b.Succs[0], &c14Fact{Cond: e, Truth: !neg}, t)
+			next(b.Succs[1], &c14Fact{Cond: e, Truth: neg}, t)
+		}
+	}
+	rec(state{b: fn.Blocks[0], predOf: map[*ssa.BasicBlock]*ssa.BasicBlock{}})
+	return paths, budget > 0
+}
+
+// c14PathCrosses: does the accepting path satisfy one of bars?
+func c14PathCrosses(p c14Path, bars []Barrier) bool {
+	for _, b := range bars {
+		if b.Edge != nil {
+			for _, f := range p.Facts {
+				if m, which := b.Edge(f.Cond); m && (which == 0) == f.Truth {
+					return true
+				}
+			}
+		}
+		if b.Instr != nil {
+			for _, in := range p.Instrs {
+				if b.Instr(in) {
+					return true
+				}
+			}
+		}
+	}
+	return false
+}
+
+// c14MustCrossAccept: every accepting exit of fn (result #idx matching accept,
+// Returns filtered by also) satisfies one of bars.
+func (c *Ctx) c14MustCrossAccept(rule string, fn *ssa.Function, what string, idx int, accept Pat, also func(*ssa.Return) bool, bars ...Barrier) int {
+	if fn == nil {
+		c.unresolved(rule, what, "function not found")
+		return 0
+	}
+	var bn []string
+	for _, b := range bars {
+		bn = append(bn, b.Name)
+	}
+	key := fmt.Sprintf("%s|%s|%s|%s", rule, fnKey(fn), what, strings.Join(bn, ","))
+	paths, complete := c14AcceptPaths(fn, idx, accept, also)
+	if !complete {
+		c.undecided(rule, key, fn.Pos(), what+": too many paths to enumerate in "+fnKey(fn))
+		return 0
+	}
+	if len(paths) == 0 {
+		c.unresolved(rule, fmt.Sprintf("%s|%s", fnKey(fn), what), "no accepting exit found (rule would pass vacuously)")
+		return 0
+	}
+	bad := 0
+	for _, p := range paths {
+		if c14PathCrosses(p, bars) {
+			continue
+		}
+		bad++
+		if bad > 1 {
+			continue // one report per rule instance is enough
+		}
+		var steps []string
+		for i, in := range p.Trail {
+			w := "F"
+			if p.Facts[i].Truth {
+				w = "T"
+			}
+			steps = append(steps, fmt.Sprintf("%s[%s]", c.lineOf(in), w))
+		}
+		if len(steps) > 14 {
+			steps = append(steps[:5], append([]string{"…"}, steps[len(steps)-8:]...)...)
+		}
+		c.violation(rule, key, instrPos(p.Ret), fmt.Sprintf("%s in %s without {%s}; path %s", what, fnKey(fn), strings.Join(bn, " | "), strings.Join(steps, "→")))
+	}
+	if bad == 0 {
+		c.ok(rule, key, fn.Pos(), fmt.Sprintf("%s in %s: all %d accepting paths hold {%s}", what, fnKey(fn), len(paths), strings.Join(bn, " | ")))
+	}
+	return len(paths)
+}
+
+func (c *Ctx) c14MustCrossAcceptAll(rule string, fn *ssa.Function, what string, idx int, accept Pat, also func(*ssa.Return) bool, bars ...Barrier) {
+	for _, b := range bars {
+		c.c14MustCrossAccept(rule, fn, what, idx, accept, also, b)
+	}
+}
+
+// c14LenOfValue matches the builtin len applied to exactly the SSA value v.
+func c14LenOfValue(v ssa.Value) Pat {
+	return func(e *Expr) bool {
+		e = strip(e)
+		return e != nil && e.K == ECall && e.Method == "builtin.len" && len(e.Args) == 1 && e.Args[0] != nil && e.Args[0].V == v
+	}
 }
